@@ -208,6 +208,15 @@ func init() {
 			return map[string]interface{}{"Revenue": "10000"}, nil
 		},
 	})
+	// C18: a dust pool with Eden rewards enabled makes the LP-reward step mint 0ueden (fixed scenario)
+	registerReplay(&Replayer{
+		Obligation: "x/masterchef/keeper.(Keeper).UpdateLPRewards/call:(Keeper).MintCoins#*",
+		Template:   "C18_dust_eden_allocation.go.tmpl", PkgDir: "x/masterchef/keeper", TestName: "TestKeeperSuite/TestVerifReplayC18DustEdenAllocation",
+		Marker: "C18 violated on the real code",
+		Data: func(m map[string]string, goal string) (map[string]interface{}, error) {
+			return map[string]interface{}{"Elys": "100", "Usdc": "10", "EdenPerYear": "9999999999999"}, nil
+		},
+	})
 	// C15: the burner burns any denom with bank metadata found at the zero address
 	registerReplay(&Replayer{
 		Obligation: "x/burner/keeper.(Keeper).burnTokensForDenom/burns:C15/burns-only-the-native-token",
